@@ -191,6 +191,13 @@ impl SvgBuilder {
         }
 
         let image = self.image.as_ref().unwrap();
+        // The image string ends up inside an XML attribute: escape the special characters
+        let image = &image
+            .replace('&', "&amp;")
+            .replace('<', "&lt;")
+            .replace('>', "&gt;")
+            .replace('"', "&quot;")
+            .replace('\'', "&apos;");
         let mut out = String::with_capacity(image.len() + 100);
 
         let (mut border_size, mut image_size) =
